@@ -293,6 +293,33 @@ theorem rowless_parent_accepts (Tb : Tables) (chk : Bool) (p c : Nat) (h : allow
   rw [h]
   cases chk <;> rfl
 
+theorem any_of_all {α : Type} (l : List α) (f : α → Bool) (hne : l.isEmpty = false) (hall : l.all f = true) :
+    l.any f = true := by
+  cases l with
+  | nil => simp at hne
+  | cons a rest => simp only [List.all_cons, Bool.and_eq_true] at hall; simp [hall.1]
+
+/-- **C06 (text in the islands)**: an element that no schema declaration names and that the tables
+    do not know (no allowed_children row) — MathML content, XForms instance data, foreign elements —
+    accepts text with checks on, and the schema's `<anyName/>` islands permit text there: the two
+    agree, without exception. -/
+theorem text_match_islands (e : Nat) (hs : schema.isElem e = false) (hr : lookup T.allowedChildren e = none) :
+    allowsText' T e = schema.mayText e ∧ (addCDATA T true e).isOk = schema.mayText e := by
+  have hisl := islands_permit_anything
+  have hempty : (schema.namedPatterns e).isEmpty = true := by simpa [Schema.isElem] using hs
+  have hmay : schema.mayText e = true := by
+    simp only [Schema.mayText, Schema.patterns, hempty, if_true]
+    apply any_of_all _ _ hisl.1
+    have h2 := hisl.2
+    rw [List.all_eq_true] at h2 ⊢
+    intro p hp
+    have := h2 p hp
+    simp only [Bool.and_eq_true] at this
+    exact this.2
+  have hapi : allowsText' T e = true := by
+    rw [allowsText_eq]; simp [allowsTextOf, hr]
+  exact ⟨by rw [hapi, hmay], by show allowsText' T e = schema.mayText e; rw [hapi, hmay]⟩
+
 /-- **C06 (checks off)**: with `check_grammar=False`, `addElement`, `addText`, `addCDATA` and the
     constructor never refuse — for any tables. -/
 theorem unchecked_passes (Tb : Tables) (p c e : Nat) (given : List Nat) :
